@@ -44,8 +44,10 @@ pub fn run(ctx: &Ctx) -> bool {
         _ => return false,
     }
     // the other arithmetic profile (overflow checks on) as a child process: always for the
-    // properties whose subject is arithmetic (C17; C18 does it itself), in the thorough tier for all
-    if ctx.prop != "C18" && (ctx.prop == "C17" || !ctx.quick()) {
+    // properties whose subject is arithmetic (C17; C18 does it itself) and, since a change can make a
+    // valid input panic in one profile only, for every other property too
+    // (quick tier: a quarter of the generated cases, all directed cases)
+    if ctx.prop != "C18" {
         run_other_profile(ctx);
     }
     // Engine C: coverage-guided campaign over the same decoder and oracle (thorough tier)
@@ -99,7 +101,7 @@ pub fn run_other_profile(ctx: &Ctx) {
         .args(["check", &ctx.prop, if ctx.quick() { "quick" } else { "thorough" }])
         .env("ACPIV_CHILD", "1")
         .env("ACPIV_NO_FUZZ", "1")
-        .env("ACPIV_SCALE", if ctx.quick() { "1" } else { "0.1" })
+        .env("ACPIV_SCALE", if ctx.prop == "C17" && ctx.quick() { "1" } else if ctx.quick() { "0.25" } else { "0.1" })
         .env("VERIF_SEED", ctx.seed.to_string())
         .env("ACPIV_ROOT", &ctx.root)
         .output();
